@@ -256,6 +256,11 @@ pub fn gen_slot(r: &mut Rng, mode: Mode) -> SlotCfg {
             bc,
             probe_min,
             build_plan: BuildPlan::Ok,
+            data_lay: match storage {
+                Storage::Owned | Storage::Shared => [Lay::C, Lay::F][r.weighted(&[5, 1])],
+                _ => [Lay::C, Lay::F, Lay::Window, Lay::Step2, Lay::Rev][r.weighted(&[5, 1, 1, 1, 1])],
+            },
+            x_lay: if storage == Storage::View { [Lay::C, Lay::Step2, Lay::Rev][r.weighted(&[6, 1, 1])] } else { Lay::C },
         };
     }
 }
